@@ -210,7 +210,7 @@ func runFetchCase(t *testing.T, r *verifkit.Run, which string, rng *rand.Rand, c
 		}
 		if fc.Mode == "midflush" {
 			// producers and fetchers under the scheduler: reads happen while uploads are held at the gate
-			cfg.Gated = []string{"upload_segment", "upload_index"}
+			cfg.Gated = []string{"upload_segment", "upload_index", "list"}
 			var prod [][]plogReq
 			np := 2 + rng.Intn(2)
 			for p := 0; p < np; p++ {
@@ -218,7 +218,7 @@ func runFetchCase(t *testing.T, r *verifkit.Run, which string, rng *rand.Rand, c
 				for b := 0; b < 2+rng.Intn(2); b++ {
 					id := fmt.Sprintf("c%d/p%d/%d", ci, p, b)
 					n := 1 + rng.Intn(4)
-					reqs = append(reqs, plogReq{Kind: "produce", Topic: "t", Partition: 0, Acks: -1, Batch: mkBatch(rng, id, n, rng.Intn(30)), BatchID: id, NRecords: n})
+					reqs = append(reqs, plogReq{Kind: "produce", Topic: "t", Partition: int32(rng.Intn(2)), Acks: -1, Batch: mkBatch(rng, id, n, rng.Intn(30)), BatchID: id, NRecords: n})
 				}
 				prod = append(prod, reqs)
 			}
@@ -226,7 +226,7 @@ func runFetchCase(t *testing.T, r *verifkit.Run, which string, rng *rand.Rand, c
 			// one fetcher actor issuing reads at offsets that exist only once acked; requests are generated lazily below
 			var fetchReqs []plogReq
 			for i := 0; i < 12; i++ {
-				fetchReqs = append(fetchReqs, plogReq{Kind: "fetch", Topic: "t", Partition: 0, Offset: int64(rng.Intn(12)), MaxBytes: fetchMaxBytes[rng.Intn(len(fetchMaxBytes)-1)]})
+				fetchReqs = append(fetchReqs, plogReq{Kind: "fetch", Topic: "t", Partition: int32(rng.Intn(2)), Offset: int64(rng.Intn(12)), MaxBytes: fetchMaxBytes[rng.Intn(len(fetchMaxBytes)-1)]})
 			}
 			cfg.Actors = append(cfg.Actors, fetchReqs)
 			s := newScenario(t, cfg)
@@ -238,7 +238,7 @@ func runFetchCase(t *testing.T, r *verifkit.Run, which string, rng *rand.Rand, c
 				}
 				switch res.Req.Kind {
 				case "produce":
-					refs["t/0"].add(res.Req.BatchID, res.Base, res.Req.NRecords, res.Req.Batch)
+					refs[fmt.Sprintf("t/%d", res.Req.Partition)].add(res.Req.BatchID, res.Base, res.Req.NRecords, res.Req.Batch)
 				case "fetch":
 					fetched = append(fetched, res)
 					if len(s.sc.snapshot()) > 0 {
@@ -253,14 +253,15 @@ func runFetchCase(t *testing.T, r *verifkit.Run, which string, rng *rand.Rand, c
 			// judge mid-run fetches against the FINAL reference: a fetch may only ever return acked-or-in-flight
 			// appended frames, all of which are in the final log (no faults here, every produce is acked)
 			refs["t/0"].seal()
+			refs["t/1"].seal()
 			for _, f := range fetched {
-				judge(s, "t/0", f.Req.Offset, f.Req.MaxBytes, f.HW, f.Records, "handler_fetch_during_flush")
+				judge(s, fmt.Sprintf("t/%d", f.Req.Partition), f.Req.Offset, f.Req.MaxBytes, f.HW, f.Records, "handler_fetch_during_flush")
 			}
 			if inWindow {
 				r.Count("cases_with_read_while_upload_pending", 1)
 			}
 			s.sc.gated = map[string]bool{}
-			sweep(s, r, rng, parts[:1], refs, fc, judge)
+			sweep(s, r, rng, parts[:2], refs, fc, judge)
 			s.teardown()
 		} else {
 			s := newScenario(t, cfg)
